@@ -22,10 +22,17 @@ QNestedDeep == Pr(Qn("forall", "k", Own("xs"), Bn("implies", Bn(">", K, NumA("0"
 QUnusedAfter == Pr(Bn("and", Bn(">", Own("x"), NumA("0")), Qn("exists", "k", Own("ys"), Bn("<", Own("x"), NumA("1")))))
 QNestedOK == Pr(Qn("forall", "k", Own("xs"), Qn("exists", "j", Own("ys"), Bn(">", K, J))))
 
+\* a quantifier whose variable has the name of an alias, and a reference to that NAME outside the quantifier (free there:
+\* it denotes the alias if an earlier event binds it, and nothing otherwise)
+QFreeAfter(a) == Pr(Bn("and", Qn("forall", a, Own("xs"), Bn(">", VarR("@" \o a), NumA("0"))), Bn("=", Own("x"), Fld(VarR("@" \o a), "x"))))
+QFreeBefore(a) == Pr(Bn("and", Bn("=", Own("x"), Fld(VarR("@" \o a), "x")), Qn("exists", a, Own("xs"), Bn(">", VarR("@" \o a), NumA("0")))))
+QFreeIdx(a) == Pr(Bn("or", Qn("exists", a, Own("xs"), Bn(">", VarR("@" \o a), Own("x"))), Bn(">", Idx(Own("ys"), Fld(VarR("@" \o a), "i")), NumA("0"))))
+
 \* options for one event position: <<alias, predicate>>
 RefIdx(a) == Pr(Bn(">", Idx(Own("xs"), Fld(VarR("@" \o a), "i")), NumA("0")))     \* { xs[@a.i] > 0 }: the reference only inside an index
 Opts6 == {<<"", NoPred>>, <<"A", NoPred>>, <<"B", Plain>>, <<"", RefP("A")>>, <<"", RefP("B")>>, <<"A", RefP("B")>>}
 OptsQ == {<<"", RefIdx("A")>>, <<"", RefIdx("B")>>, <<"B", RefIdx("A")>>,
+          <<"", QFreeAfter("A")>>, <<"", QFreeBefore("A")>>, <<"", QFreeIdx("A")>>, <<"", QFreeAfter("B")>>, <<"B", QFreeAfter("A")>>,
           <<"", Pr(Bn(">", Fld(Idx(Idx(Own("ys"), NumA("0")), Fld(VarR("@A"), "i")), "z"), NumA("0")))>>,
           <<"", Pr(Bn("in", Own("x"), Rng("[", NumA("0"), Idx(Own("xs"), Fld(VarR("@A"), "i")), "]")))>>,
           <<"", Pr(Qn("forall", "k", Own("xs"), Bn(">", Idx(Own("ys"), Fld(VarR("@A"), "i")), K)))>>,
